@@ -21,3 +21,57 @@ def combineNoTrex (inputs : List CombineInput) (outTfhd : Tfhd) (outTrex : Trex)
   inputs.map fun i => readBack outTfhd outTrex { samples := readBack i.tfhd {} i.run }
 
 end Mp4ff.Frag
+
+/-! ### where the sample data of a track fragment is (ISO/IEC 14496-12 8.8.7.1 tfhd, 8.8.8.1 trun)
+`Fragment.GetFullSamples` (mp4/fragment.go) resolves these for the traf it expands; it is the sample source of
+`MediaSegment.Fragmentify`, `examples/resegmenter` and `examples/combine-segs`. -/
+namespace Mp4ff.Frag
+
+/-- the two tfhd fields that determine the base of the data offsets -/
+structure TfhdBase where
+  baseDataOffset : Option Nat := none    -- flag 0x000001 and the field
+  defaultBaseIsMoof : Bool := false      -- flag 0x020000
+deriving Repr, DecidableEq
+
+/-- base_data_offset, when present, wins; otherwise default-base-is-moof, or being the first traf of the moof, gives
+    the moof start; otherwise the end of the data of the previous traf -/
+def TfhdBase.base (h : TfhdBase) (moofStart prevTrafEnd : Nat) (firstTraf : Bool) : Nat :=
+  match h.baseDataOffset with
+  | some b => b
+  | none => if h.defaultBaseIsMoof || firstTraf then moofStart else prevTrafEnd
+
+/-- a run as far as the location of its data goes: trun data_offset (`none` = flag 0x000001 not set), sample sizes -/
+structure RunLoc where
+  dataOffset : Option Int
+  sizes : List Nat
+deriving Repr, DecidableEq
+
+/-- start of every run's data: base + data_offset, or — without data_offset — the end of the previous run's data
+    (`prevEnd`, which is the base for the first run) -/
+def runStarts (base : Int) : Int → List RunLoc → List Int
+  | _, [] => []
+  | prevEnd, r :: rest =>
+    let start := match r.dataOffset with
+      | some d => base + d
+      | none => prevEnd
+    start :: runStarts base (start + (r.sizes.sum : Nat)) rest
+
+/-- consecutive samples from a position -/
+def offsetsFrom (p : Int) : List Nat → List Int
+  | [] => []
+  | s :: rest => p :: offsetsFrom (p + (s : Nat)) rest
+
+/-- absolute position of the first byte of every sample of a (first or only) traf, in track order -/
+def samplePositions (h : TfhdBase) (moofStart : Nat) (runs : List RunLoc) : List Int :=
+  let base : Int := (h.base moofStart moofStart true : Nat)
+  ((runStarts base base runs).zip runs).flatMap fun pr => offsetsFrom pr.1 pr.2.sizes
+
+/-- a writer that put the data of its runs at the absolute positions `p` (with the sample sizes given) describes each
+    by `data_offset = p - base`, or — when it chooses to (`omit`) and the run follows the previous one — by nothing -/
+def describeRuns (base : Int) : Int → List (Int × Bool × List Nat) → List RunLoc
+  | _, [] => []
+  | prevEnd, (p, om, sizes) :: rest =>
+    { dataOffset := if om = true ∧ p = prevEnd then none else some (p - base), sizes := sizes } ::
+      describeRuns base (p + (sizes.sum : Nat)) rest
+
+end Mp4ff.Frag
